@@ -15,6 +15,7 @@ package gopfmt
 //@   at call os.Remove assert [after-remove] crashOK(path, target, old(fsC)[path])
 //@   at call os.Chmod assert [after-chmod] crashOK(path, target, old(fsC)[path])
 //@   at call os.Rename#1 assert [after-rename] crashOK(path, target, old(fsC)[path])
+//@   at call os.WriteFile assert [after-writefile] crashOK(path, target, old(fsC)[path])
 //@   ensures [content] err == nil ==> fsC[path] == contentOf(target)
 //@   ensures [mode] err == nil ==> fsM[path] == old(fsM)[path]
 //@   ensures [failure-keeps-a-complete-file] err != nil ==> crashOK(path, target, old(fsC)[path])
